@@ -118,7 +118,7 @@ func (a *An) c04Receiver(rule string) {
 
 func (a *An) c04Rotation(rule string) {
 	R := a.R
-	if f := a.MustFn("(*keyManagementContext).generateNewDHKeyPair"); f != nil {
+	if f := a.MustFn("(*keyManagementContext).installNewDHKeyPair"); f != nil {
 		cur := a.MustField("keyManagementContext", "ourCurrentDHKeys")
 		prev := a.MustField("keyManagementContext", "ourPreviousDHKeys")
 		id := a.MustField("keyManagementContext", "ourKeyID")
@@ -144,7 +144,7 @@ func (a *An) c04Rotation(rule string) {
 			a.TermIs(rule, "generateNewDHKeyPair|previous", "previous := current", sp, sp.Val, "keyManagementContext.ourCurrentDHKeys")
 			R.Check(instrDominates(sp, sc), rule, "generateNewDHKeyPair|order", "current is moved to previous before it is replaced", a.C.InstrPos(sc), "order differs")
 			cf := a.complitFields(sc.Val)
-			R.Check(strings.HasPrefix(cf["priv"], "randSizedSecret(") && strings.HasPrefix(cf["pub"], "(*github.com/coyim/constbn.Int).GetBigInt(modExpPCT(global:g1ct, randSizedSecret("), rule, "generateNewDHKeyPair|new-pair", "new pair = (fresh secret, g^secret)", a.C.InstrPos(sc), fmt.Sprintf("%v", cf))
+			R.Check(cf["priv"] == "$newPrivKey" && cf["pub"] == "(*github.com/coyim/constbn.Int).GetBigInt(modExpPCT(global:g1ct, $newPrivKey))", rule, "generateNewDHKeyPair|new-pair", "new pair = (fresh secret, g^secret)", a.C.InstrPos(sc), fmt.Sprintf("%v", cf))
 			a.TermIs(rule, "generateNewDHKeyPair|id", "our key id advances by one", sid, sid.Val, "(keyManagementContext.ourKeyID + 1)")
 		}
 	}
@@ -179,16 +179,25 @@ func (a *An) c04Rotation(rule string) {
 			a.GateLocal(rule, "rotateTheirKey|guard", sc, "installing their next key", g)
 		}
 	}
+	// the installed secret is fresh: both callers hand over what they just drew from the randomness source
+	if inst := a.MustFn("(*keyManagementContext).installNewDHKeyPair"); inst != nil {
+		a.WhoMayCall(rule, inst, "(*keyManagementContext).generateNewDHKeyPair", "(*keyManagementContext).rotateOurKeys")
+		for _, cs := range a.CallSites(inst) {
+			caller := a.C.Name(a.C.owner(cs.Parent()))
+			a.R.Check(strings.HasPrefix(a.C.Term(cs.Common().Args[1]), "randSizedSecret("), rule, "install|fresh|"+caller, "the installed private key is a fresh draw", a.C.InstrPos(cs), "installs "+a.C.Term(cs.Common().Args[1]))
+			a.GateLocal(rule, "install|drawn|"+caller, cs, "installing a new key pair", "ok:randSizedSecret")
+		}
+	}
 	if f := a.MustFn("(*keyManagementContext).rotateOurKeys"); f != nil {
-		if c := a.uniqueCall(rule, f, "(*keyManagementContext).generateNewDHKeyPair"); c != nil {
+		if c := a.uniqueCall(rule, f, "(*keyManagementContext).installNewDHKeyPair"); c != nil {
 			a.GateLocal(rule, "rotateOurKeys|guard", c, "generating our next pair", "passed:"+canonCmp("$recipientKeyID", "==", "keyManagementContext.ourKeyID"))
 		}
 	}
 	// previous generations have no other writer
 	a.WhoMayWriteDirect("W.previous-keys", a.MustField("keyManagementContext", "theirPreviousDHPubKey"), "(*keyManagementContext).rotateTheirKey", "(*keyManagementContext).wipeKeys")
-	a.WhoMayWriteDirect("W.previous-keys", a.MustField("keyManagementContext", "ourPreviousDHKeys"), "(*keyManagementContext).generateNewDHKeyPair")
+	a.WhoMayWriteDirect("W.previous-keys", a.MustField("keyManagementContext", "ourPreviousDHKeys"), "(*keyManagementContext).installNewDHKeyPair")
 	a.WhoMayWriteDirect("W.previous-keys", a.MustField("keyManagementContext", "theirCurrentDHPubKey"), "(*keyManagementContext).rotateTheirKey", "(*keyManagementContext).wipeKeys", "(*keyManagementContext).setTheirCurrentDHPubKey")
-	a.WhoMayWriteDirect("W.previous-keys", a.MustField("keyManagementContext", "ourKeyID"), "(*keyManagementContext).generateNewDHKeyPair", "(*keyManagementContext).wipe", "(*Conversation).dhCommitMessage", "(*Conversation).revealSigMessage", "(*Conversation).sigMessage")
+	a.WhoMayWriteDirect("W.previous-keys", a.MustField("keyManagementContext", "ourKeyID"), "(*keyManagementContext).installNewDHKeyPair", "(*keyManagementContext).wipe", "(*Conversation).dhCommitMessage", "(*Conversation).revealSigMessage", "(*Conversation).sigMessage")
 	a.WhoMayWriteDirect("W.previous-keys", a.MustField("keyManagementContext", "theirKeyID"), "(*keyManagementContext).rotateTheirKey", "(*keyManagementContext).wipe", "(*Conversation).processEncryptedSig")
 	// no session-key cache: session keys are computed per message (nothing of type sessionKeys is stored in the conversation)
 	for _, f := range a.C.FuncSeq {
